@@ -104,6 +104,22 @@ def check(P, rep):
         rcp = core(e.args[0] if e.method == 'mint' else e.args[1])
         okr = rcp[0] == 'call' and 'FromXdr>::from_xdr' in rcp[1] and find(rcp, lambda s: s[0] == 'field' and s[1] == 'destinationAddress') is not None
         rep.check(okr, 'C04.R4', 'execute:%s.%s:recipient' % (e.client, e.method), 'recipient is the decoded destination address (Address::from_xdr Ok)', esite(g, e), fmt(rcp)[:200])
+    # deploy arm: an announced minter must decode to an address (an undecodable minter is refused, not dropped)
+    deploys = [e for e in effs if e.kind == 'deploy']
+    is_minter_bytes = lambda t: find(t, lambda s_: s_[0] == 'field' and s_[1] == 'minter' and decode_call(s_[2], 'DeployInterchainToken') is not None) is not None
+    ok_minter = guard_sel(g, lambda c_: c_[0] == 'ok' and core(c_[1])[0] == 'call' and 'FromXdr>::from_xdr' in core(c_[1])[1] and is_minter_bytes(c_[1]))
+    no_minter = guard_sel(g, lambda c_: c_[0] == 'absent' and is_minter_bytes(c_[1]) and
+                          find(c_[1], lambda s_: s_[0] == 'call' and 'FromXdr>::from_xdr' in s_[1]) is None)
+    rep.floor('execute deploy-arm minter decode guard', len(ok_minter), 1)
+    for e in deploys:
+        ok, _, w = mg(g, [e.node], (), edges(ok_minter) + edges(no_minter)) if ok_minter else (False, None, None)
+        rep.check(ok, 'C04.R4', 'execute:deploy:minter-decodes', 'the remote deploy is must-guarded by: no minter announced OR the announced minter decodes to an address',
+                  esite(g, e), None, w)
+        args = tuple_items(core(e.args)) or []
+        if len(args) == 4:
+            somes = [a for a in alts(args[1]) if variant_name(a) == 'Some']
+            rep.check(all(core(a[3][0])[0] == 'call' and 'FromXdr>::from_xdr' in core(a[3][0])[1] and is_minter_bytes(a[3][0]) for a in somes) and bool(somes), 'C04.R4',
+                      'execute:deploy:minter-term', 'the constructor\'s minter is the address decoded from the announced minter bytes', esite(g, e), fmt(args[1])[:200])
     from rules.c16 import gateway_binding
     gateway_binding(P, rep, 'C04.R1')
     storage_classes(P, rep, 'C04.R2', CN, {'TrustedChain': 'persistent', 'TokenIdConfigKey': 'persistent', 'Gateway': 'instance', 'ItsHubAddress': 'instance'})
